@@ -3,14 +3,16 @@ CONSTANTS
   Members = {"p", "q"}
   Vals = {1, 2, 3, 4}
   HwMax = 3
+  HwModes = {"clip", "refuse"}
   Depth = 7
+  Depth2 = 5
   Layouts = {"combined", "separate"}
   WM = {"q"}
   WV = {4}
   AM = {"p"}
-  AV = {3}
+  AV = {1}
   RM = {"q"}
-  SWV = {0}
+  SWV = {2}
   SAV = {}
   RS = FALSE
 CONSTRAINT Bound
